@@ -19,7 +19,8 @@ RULE = ("cases = term (initial condition ODE/PDE, normalisation stationary/non-s
         "= expected term > 1e-6 (and, for normalisation, mean-of-squares differs from square-of-mean by > 1%); "
         "distinct = distinct configuration tuples")
 ASSUMPTIONS = [
-    "normalisation: w * (V * mean_j u(x_j) - 1)^2, averaged over the batch times when u depends on time (scalar u)",
+    "normalisation: w * (V * mean_j u(x_j) - 1)^2, averaged over the batch times when u depends on time; u is scalar: "
+    "the only output, or the channel selected by the network's slice_solution when it has auxiliary outputs",
     "per-component weights only where the reduction is component-wise (PDE initial condition, observations)",
     "separable networks: initial-condition and normalisation terms against the closed form of an analytic separable field "
     "(observations on separable networks are refused by jinns: not covered)",
@@ -52,6 +53,10 @@ def gen_cases(tier, seed):
         if kind.startswith("norm"):
             c.update(S=int(rng.integers(1, 51)), V=float(np.round(rng.uniform(0.2, 6.0), 3)),
                      nt=int(rng.integers(1, 5)))
+            if k % 3 == 2:
+                # a network with auxiliary outputs: the solution u is the channel selected by slice_solution
+                c["n_out"] = 2 + (k // 3) % 2
+                c["sol"] = int(rng.integers(c["n_out"]))
         if kind.startswith("obs"):
             a = int(rng.integers(n_out))
             b = int(rng.integers(a + 1, n_out + 1))
@@ -195,8 +200,12 @@ def run_case(case, rec):
     # ------------------------------------------------------------------ normalisation
     if kind.startswith("norm"):
         nonst = kind == "norm_nonstatio"
-        f = fields.TrigField(case["seed"], d + (1 if nonst else 0), 1, scale=1.0)
-        net = nets.Net(f, "nonstatio_PDE" if nonst else "statio_PDE")
+        f = fields.TrigField(case["seed"], d + (1 if nonst else 0), n_out, scale=1.0)
+        sol = case.get("sol", 0)
+        net = nets.Net(f, "nonstatio_PDE" if nonst else "statio_PDE",
+                       **({"slice_solution": jnp.s_[sol:sol + 1]} if n_out > 1 else {}))
+        if n_out > 1:
+            rec.count("norm_cases_with_auxiliary_outputs")
         u = net.pinn()
         params = Params(nn_params=net.nn_params(), eq_params={"nu": jnp.asarray(1.0)})
         S, V = case["S"], case["V"]
@@ -214,14 +223,14 @@ def run_case(case, rec):
             batch = jinns.data.PDENonStatioBatch(times_x_inside_batch=jnp.asarray(tx), times_x_border_batch=None)
             per_t, alt = [], []
             for row in tx:
-                us = np.array([net.val(np.concatenate([[row[0]], x]))[0] for x in samples])
+                us = np.array([net.val(np.concatenate([[row[0]], x]))[sol] for x in samples])
                 per_t.append((V * np.mean(us) - 1.0) ** 2)
                 alt.append(np.mean((V * us - 1.0) ** 2))
             exp, alt = w * float(np.mean(per_t)), w * float(np.mean(alt))
         else:
             batch = jinns.data.PDEStatioBatch(inside_batch=jnp.asarray(rng.uniform(-1, 2, (case["B"], d))),
                                               border_batch=None)
-            us = np.array([net.val(x)[0] for x in samples])
+            us = np.array([net.val(x)[sol] for x in samples])
             exp = w * float((V * np.mean(us) - 1.0) ** 2)
             alt = w * float(np.mean((V * us - 1.0) ** 2))
         total, terms = guard.call(jit_eval, loss, params, batch)
@@ -230,6 +239,8 @@ def run_case(case, rec):
         discr = abs(alt - exp) > 0.01 * max(abs(exp), 1e-9)
         sig = "norm/%s/pinn/%s" % ("nonstatio" if nonst else "statio",
                                    "mean-of-squares" if (discr and close(got, alt, 1e-8, 1e-10)) else "value")
+        if n_out > 1:
+            sig += "/auxiliary-outputs"
         rec.count("terms_compared")
         if abs(exp) > 1e-6 and discr:
             rec.nontrivial((kind, d, S, V, case["seed"]))
